@@ -93,7 +93,7 @@ func planC05(tier string, seed uint64) *Plan {
 	tlsModes := []string{"stub"}
 	if tier == "thorough" {
 		cfgs = []JobCfg{mkCfg(2, 5, 128, nil, stdFeeds), mkCfg(10, 5, 16, nil, stdFeeds), mkCfg(30, 1, 1, nil, stdFeeds)}
-		for i := 0; i < 18; i++ {
+		for i := 0; i < 20; i++ {
 			corpus = append(corpus, i)
 		}
 		maxhops = 2
@@ -102,7 +102,7 @@ func planC05(tier string, seed uint64) *Plan {
 		tlsModes = []string{"stub", "real"}
 	} else {
 		cfgs = []JobCfg{mkCfg(2, 5, 128, nil, stdFeeds), mkCfg(10, 5, 4, nil, stdFeeds)}
-		corpus = []int{0, 1, 6, 7, 10, 11, 14}
+		corpus = []int{0, 1, 6, 7, 8, 9, 12, 13, 16}
 	}
 	var groups []*Group
 	k := 0
@@ -419,7 +419,7 @@ func planC07(tier string, seed uint64) *Plan {
 	}
 	n, jobs, count := 16, 2, 40
 	if tier == "thorough" {
-		n, jobs, count = 32, 4, 200
+		n, jobs, count = 32, 4, 120
 	}
 	groups := randomPlan("ui_keymap", seed, uiCfgs(seed, n, nil), jobs, count, "stub")
 	groups = append(groups, randomPlan("ui_keymash", seed+9, uiCfgs(seed+9, n/2, nil), jobs, count/2, "stub")...)
